@@ -157,12 +157,48 @@ def run(prog, tier, res):
             res.violate(R6, fn, "range", "conversion accepts %s, spec says %s %s" % (gotr, want_r, unknown[:2]), prog.bodies[fn].where())
     check_lookup(prog, res, R6, "<alpha_g_detector::padwing::BoardId as std::convert::TryFrom<[u8; 6]>>::try_from",
                  "alpha_g_detector::padwing::PADWING_BOARDS", 1, 3)
+    # ---------------------------------------------------------------- readout index -> ChannelId is a bijection
+    R7 = res.rule("C05.R7", "ChannelId::try_from(readout index) accepts exactly 1..=79, is injective (re-encoding is unambiguous), maps onto every reset/FPN/pad id, and numbers the ids of each kind in ascending readout order", 4)
+    from .common import conversion_outputs
+    CH = "<alpha_g_detector::padwing::ChannelId as std::convert::TryFrom<u16>>::try_from"
+    res.functions.add(CH)
+    outs, unk = conversion_outputs(prog, CH, 0, 65535)
+    where_ch = prog.bodies[CH].where() if CH in prog.bodies else ""
+    if unk or not outs:
+        res.violate(R7, CH, "evaluate", "the readout-index conversion cannot be evaluated over its domain: %s" % (unk[:2],), where_ch)
+    else:
+        if ranges_of(outs.keys()) == [[1, 79]]:
+            res.hit(R7)
+        else:
+            res.violate(R7, CH, "domain", "accepted readout indices are %s, expected 1..=79" % ranges_of(outs.keys()), where_ch)
+        inv = {}
+        for k_, v_ in outs.items():
+            inv.setdefault(v_, []).append(k_)
+        dup = sorted(ks for ks in inv.values() if len(ks) > 1)
+        if not dup:
+            res.hit(R7)
+        else:
+            res.violate(R7, CH, "injective", "readout indices %s map to the same channel id: a block header of one is accepted for the other and re-encoding is ambiguous" % dup[0], where_ch)
+        # onto + ascending per kind: the payload ids of each kind are 1..n in readout order
+        kinds = {}
+        for k_ in sorted(outs):
+            v_ = outs[k_]
+            num = v_
+            while isinstance(num, tuple):
+                num = num[-1]
+            kinds.setdefault(v_[0], []).append(num)
+        want_n = spec.get("channel_kinds", {"Reset": 3, "Fpn": 4, "Pad": 72})
+        ok_onto = all(kinds.get(kd) == list(range(1, n_ + 1)) for kd, n_ in want_n.items()) and set(kinds) == set(want_n)
+        if ok_onto:
+            res.hit(R7, 2)
+        else:
+            res.violate(R7, CH, "onto-ascending", "ids per kind in readout order are %s; expected each kind numbered 1..n ascending (%s)" % (
+                {k: (v if len(v) < 8 else v[:4] + ["..."] + v[-2:]) for k, v in kinds.items()}, want_n), where_ch)
     wfn = prog.body(WRAP_FN)
     if len([1 for _, t in wfn.calls() if cname(t) == FN]) != 1:
         res.violate(R6, WRAP_FN, "forward", "PwbPacket::try_from(&[u8]) does not call PwbV2Packet::try_from exactly once", wfn.where())
     res.functions.add(WRAP_FN)
-    res.undecided = ["ChannelId::try_from(u16) being a bijection from 1..=79 onto 3 reset + 4 FPN + 72 pad ids (bool-to-int arithmetic in a match arm; would need partial evaluation)",
-                     "mask -> list equality rests on the audited loop-shape implication"]
+    res.undecided = ["mask -> list equality rests on the audited loop-shape implication"]
 
 
 def mask_loop_shape(prog, an, sy, header):
